@@ -23,6 +23,8 @@ def run(out, tier, seed):
     r = C.tlc("MC_Ideal", "MC_Ideal_%s.cfg" % tier, "mc", "c06-mc", workers=12, timeout=7200, heap="16g")
     C.tlc_must_pass(r, "MC_Ideal")
     out.add_tlc(r)
+    if tier == "thorough":
+        C.refinement(out, "c06", True)
     d = C.ensure_dir(os.path.join(C.BUILD, "c06"))
     f = os.path.join(d, "trace.ndjson")
     p = C.harness(["paserk", "--mode", "tamper", "--out", f, "--tier", tier, "--seed", str(seed)], timeout=7200)
